@@ -4,6 +4,7 @@ The IR is what the Lean model/spec consumes; the GDL text is what the real compi
 Everything derives from one random.Random(seed) so a case is regenerated exactly from (family, seed, index).
 """
 import json
+import re
 import random
 
 import ttf
@@ -170,6 +171,17 @@ class Prog:
 def rule_text(r):
     lhs, rhs, ctx = [], [], []
     has_gt = any(it.mod and (it.out is not None or it.cls is None) for it in r.items)
+    al = getattr(r, "alias", None) or {}      # 1-based item number -> (name, "lhs" | "rhs" | "ctx"): slot aliases
+
+    def ref(k):
+        return al[k][0] if k in al else str(k)
+
+    def named(txt):
+        # @3.user1 -> @name.user1 in attribute values and constraints
+        return re.sub(r"@(\d+)\b", lambda m: "@" + ref(int(m.group(1))), txt) if al else txt
+
+    def tag(i, place):
+        return "=" + al[i + 1][0] if (i + 1) in al and al[i + 1][1] == place else ""
     for i, it in enumerate(r.items):
         pre = ""
         for (s, e) in r.opt:
@@ -188,21 +200,22 @@ def rule_text(r):
             lhs_q = "?"
             pre, post = "", ""
         if it.mod:
-            lhs.append((it.cls if it.cls is not None else "_") + lhs_q)
+            lhs.append((it.cls if it.cls is not None else "_") + lhs_q + tag(i, "lhs"))
             if it.out is None:
                 o = it.cls
             elif it.out[0] == "cls":
-                o = it.out[1] + ("$%d" % it.out[2] if it.out[2] is not None else "")
+                o = it.out[1] + ("$%s" % ref(it.out[2]) if it.out[2] is not None else "")
             elif it.out[0] == "copy":
-                o = "@%d" % it.out[1]
+                o = "@%s" % ref(it.out[1])
             else:
                 o = "_"
             if it.assoc:
-                o += ":(%s)" % " ".join(str(a) for a in it.assoc) if len(it.assoc) > 1 else ":%d" % it.assoc[0]
+                o += ":(%s)" % " ".join(ref(a) for a in it.assoc) if len(it.assoc) > 1 else ":%s" % ref(it.assoc[0])
+            o += tag(i, "rhs")
             if it.attrs or it.attach:
-                parts = ["%s %s %s" % (a, op, t) for (a, op, t, _i) in it.attrs]
+                parts = ["%s %s %s" % (a, op, named(t)) for (a, op, t, _i) in it.attrs]
                 if it.attach:
-                    parts.insert(0, "attach {to = @%d; at = %s; with = %s}" % it.attach)
+                    parts.insert(0, "attach {to = @%s; at = %s; with = %s}" % (ref(it.attach[0]), it.attach[1], it.attach[2]))
                 o += " {" + "; ".join(parts) + "}"
             if r.opt_body:
                 o = pre + o + post
@@ -213,8 +226,9 @@ def rule_text(r):
             c = "_"
         else:
             c = it.cls
+        c += tag(i, "ctx")
         if it.constraint:
-            c += " {%s}" % it.constraint[0]
+            c += " {%s}" % named(it.constraint[0])
         ctx.append(caret + pre + c + post)
     if r.caret is not None and r.caret == len(r.items):
         ctx.append("^")
@@ -227,6 +241,33 @@ def rule_text(r):
     if not allmod:
         s += " / " + " ".join(ctx)
     return s + ";"
+
+
+def add_aliases(rng, prog, p=0.6):
+    """Spell slot references by name: some items of some rules get an alias (`cls=name`), declared on the left-hand side,
+    on the right-hand side or in the context, and every reference to such an item (`$n`, `@n`, `:n`, `@n.attr`, attach.to)
+    is written with the name. The IR keeps the numbers: the program denotes the same rules."""
+    for _kind, passes in prog.tables:
+        for rules in passes:
+            for r in rules:
+                if r.opt or rng.random() > p:
+                    continue
+                has_gt = any(it.mod and (it.out is not None or it.cls is None) for it in r.items)
+                allmod = all(it.mod for it in r.items) and not any(it.constraint for it in r.items) and r.caret is None
+                al = {}
+                for i, it in enumerate(r.items):
+                    if rng.random() < 0.6:
+                        places = []
+                        if it.mod:
+                            places.append("rhs")
+                            if has_gt:
+                                places.append("lhs")
+                        if not allmod:
+                            places.append("ctx")
+                        if places:
+                            al[i + 1] = ("%s%d" % (rng.choice(["s", "base", "x", "item"]), i + 1), rng.choice(places))
+                r.alias = al
+    return prog
 
 
 # ---------------------------------------------------------------------------
@@ -310,7 +351,7 @@ def _nodup(l):
     return len(set(l)) == len(l)
 
 
-def gen_class_program(rng, size="small"):
+def gen_class_program(rng, size="small", bad_glyphs=False):
     """Family 'classes' (C04): definition trees with nesting, ranges, late '+=', '&=', '-=', duplicates across classes,
     classes of size 0/1/many, and one-item substitution rules using them as selector/output classes."""
     prog = Prog()
@@ -362,6 +403,24 @@ def gen_class_program(rng, size="small"):
                     gl = rng.sample(range(lo, hi), min(k, hi - lo))
                 parts.append(glyph_list_text(gl, rng))
                 tr.append({"k": "glyphs", "g": gl})
+                if bad_glyphs and rng.random() < 0.5:
+                    # (compiled with -g) code points the font does not map, two or more in a row inside ONE member: they are
+                    # dropped with a warning and the class holds the other glyphs, in order
+                    a = rng.choice([0xE000, 0x4E00, 0x61 + prog.nglyphs - 2])
+                    k = rng.randint(2, 5)
+                    if rng.random() < 0.5 and gl and gl[-1] == prog.nglyphs - 1 and parts[-1].startswith("glyphid"):
+                        # a range that starts on mapped glyphs and runs off the mapped block
+                        st = gl[-1]
+                        while st - 1 in gl and gl.index(st - 1) == gl.index(st) - 1:
+                            st -= 1
+                        keep = gl[:gl.index(st)]
+                        parts[-1] = ("(%s, " % glyph_list_text(keep) if keep else "(") + "unicode(0x%04x..0x%04x))" % (0x61 + st - 2, 0x61 + prog.nglyphs - 2 + k - 1)
+                    else:
+                        # (codepoint() takes code page 1252 characters only: it is used for the ASCII run after the mapped block)
+                        forms = ["unicode(0x%04x..0x%04x)" % (a, a + k - 1), "U+%04X..U+%04X" % (a, a + k - 1)]
+                        if a + k - 1 < 0x7F:
+                            forms.append("codepoint(%d..%d)" % (a, a + k - 1))
+                        parts.append(rng.choice(forms))
             else:
                 c = rng.choice(cands)
                 parts.append(c)
@@ -474,6 +533,8 @@ def gen_class_program(rng, size="small"):
         c = nd[0] if nd else names[0]
         rules.append(Rule([Item(cls=c, mod=True, out=None)]))
     prog.tables.append(("sub", [rules]))
+    if bad_glyphs:
+        prog.compile_opts = ["-g"]
     return prog
 
 
@@ -857,6 +918,13 @@ def gen_ref_program(rng, missing=False):
         a = rng.randrange(ncls)
         outs = [j for j in range(ncls) if dupfree[j] and (sizes[j] == sizes[a] or sizes[j] == 1)]
         items = []
+        if missing and rng.random() < 0.35:
+            # the class with the unmapped code points as the INPUT class of a substitution: under -g the two mapped glyphs
+            # are its members (the placeholders of the ignored ones are neither members nor duplicates of each other)
+            outs2 = [j for j in range(ncls) if dupfree[j] and sizes[j] in (1, 2)]
+            if outs2:
+                rules.append(Rule([Item(cls="cMiss", mod=True, out=("cls", names[rng.choice(outs2)], None))]))
+                continue
         if missing and rng.random() < 0.7:
             items.append(Item(cls="cMiss"))
         elif npseudo and rng.random() < 0.6:
